@@ -476,6 +476,16 @@ def step (d : DState) (line : String) : DState × String :=
         match addBlockNoValidation C (d.getState src) b with
         | .ok cs => (d.putState dst cs, "ok")
         | .error e => (d, "err " ++ errKind e))
+  | ["cbchk", name, blk] =>
+    (d, match Block.ofBytes C (hx blk) with
+      | none => "rej decode"
+      | some b =>
+        match b.txs with
+        | [] => "rej key"
+        | cb :: _ =>
+          match validateCoinbaseInState d.params (d.getState name) cb b with
+          | .ok _ => "ok"
+          | .error e => "rej " ++ errKind e)
   | ["add", dst, src, blk, now] =>
     (match Block.ofBytes C (hx blk), now.toInt? with
       | some b, some t =>
